@@ -36,6 +36,22 @@ m.sm.triple = 3
 acc = append(acc, m.k)
 return [m.k, m.ns.n, m.ns.depth.x, m.arr[1], m.raw, m.name, m.sm.triple]
 """,
+# ... also when the container is empty, at every nesting level and in every container kind
+b"""global(inp, acc)
+m := import("vmod")
+before := [len(m.empty), len(m.emptysm), len(m.boxes.m), len(m.boxes.a[0]), len(m.boxes.sm.inner), len(m.emptyarr), len(m.boxes.a[1])]
+m.empty.k = inp
+m.emptysm.k = inp
+m.boxes.m.z = 1
+m.boxes.a[0].y = 2
+m.boxes.sm.inner.x = 3
+m.boxes.sm.top = 4
+m.emptyarr = append(m.emptyarr, 5)
+m.boxes.a[1] = append(m.boxes.a[1], 6)
+m.boxes.a = append(m.boxes.a, 7)
+acc = append(acc, len(m.empty))
+return [before, len(m.empty), len(m.emptysm), len(m.boxes.m), len(m.boxes.a[0]), len(m.boxes.sm.inner), len(m.boxes.sm), len(m.boxes.a)]
+""",
 # errors with stack traces from two files, formatted concurrently
 b"""global(inp, acc)
 t := import("m1")
